@@ -19,7 +19,7 @@ from .core import Relation, err_kind
 
 PROP = "C04"
 CLAIMED = True
-COQ_MODULES = ["C04_Check", "C04_Proofs", "C04_ProofsSet", "C04_ProofsFile", "C04_ProofsSpec", "C04_ProofsAnc", "C04_Legacy"]
+COQ_MODULES = ["C04_Check", "C04_Proofs", "C04_ProofsSet", "C04_ProofsFile", "C04_ProofsSpec", "C04_ProofsAnc", "C04_Legacy", "C04_ProofsPerm"]
 PROPERTY_MODULE = "C04_Property"
 ALLOWED_AXIOMS = []
 RULE = (
